@@ -8,6 +8,8 @@
 pub mod hooks;
 pub mod node;
 pub mod pl;
+#[cfg(feature = "security")]
+pub mod sec;
 pub mod types;
 
 pub use crate::{
